@@ -135,7 +135,7 @@ impl Property for C03 {
         "C03"
     }
     fn rule(&self) -> String {
-        "Each case = group + three point values built through the public API (neutral incl. (X:Y:0), +-B, small multiples, uniform elements sampled on the reference side, torsion / mixed-order points on the Edwards curves, scaled projective coordinates on P-256/secp256k1, one_way_map / hash_to_curve outputs, torsion-shifted representatives of ristretto255/decaf448 through the hooks, results of 1-3 chained operations) with an imposed relation (q = p, -p, 2p, -2p, p+T, neutral, or independent); +, -, neg, double, xdouble(n<=70), mul_small(u64), associativity and cancellation compositions, equals and isneutral are compared with the affine reference law through encodings. Non-trivial: an exceptional relation among operands (equal, opposite, neutral, torsion difference) or a non-affine / special representative. distinct = distinct case hash.".into()
+        "Each case = group + three point values built through the public API (neutral incl. (X:Y:0), +-B, small multiples, uniform elements sampled on the reference side, torsion / mixed-order points on the Edwards curves, scaled projective coordinates on P-256/secp256k1, one_way_map / hash_to_curve outputs, torsion-shifted representatives of ristretto255/decaf448 through the hooks, results of 1-3 chained operations, pre-images S/2^n, S/k, S-p, p-S of small-coordinate points S so that an operation's result is the special point) with an imposed relation (q = p, -p, 2p, -2p, p+T, neutral, or independent); +, -, neg, double, xdouble(n<=70), mul_small(u64), associativity and cancellation compositions, equals and isneutral are compared with the affine reference law through encodings. Non-trivial: an exceptional relation among operands (equal, opposite, neutral, torsion difference) or a non-affine / special representative. distinct = distinct case hash.".into()
     }
     fn shard_size(&self) -> u64 {
         20
@@ -153,8 +153,34 @@ impl Property for C03 {
             1 => any::<u64>(),
             1 => (0u32..64, -1i64..=1).prop_map(|(s, d)| (1u64 << s).wrapping_add(d as u64)),
         ];
-        (pv_strategy(g, pc, chain), any_pv(g), any_pv(g), prop_oneof![3 => 0u32..6, 1 => 6u32..70], ks, any::<u8>())
-            .prop_map(move |(p, q, r, n, k, form)| Case { g: g as u8, p, q, r, rel, n, k, form })
+        // 1 case in 5: an operand is the pre-image of a special point S (small / zero coordinate) under one of the operations,
+        // so that the *result* of the operation (rather than its input) is the special point: p = S/2^n, p = S/k, q = S - p, q = p - S
+        let target = prop_oneof![4 => Just(None), 1 => (any::<usize>(), 0u8..4).prop_map(Some)];
+        (pv_strategy(g, pc, chain), any_pv(g), any_pv(g), prop_oneof![3 => 0u32..6, 1 => 6u32..70], ks, any::<u8>(), target)
+            .prop_map(move |(mut p, mut q, r, n, k, form, target)| {
+                if let Some((idx, mode)) = target {
+                    let rgp = rg(g);
+                    let small = small_coord_encodings(g);
+                    if let Some(s) = small.get(idx % small.len().max(1)).and_then(|e| rgp.decode(e)) {
+                        let ord = rgp.order();
+                        let enc = |x: &refmodel::curves::Pt| PV { src: PSrc::Enc(rgp.encode(x)), chain: vec![] };
+                        match mode {
+                            0 | 1 => {
+                                let m = if mode == 0 { num_bigint::BigUint::from(1u32) << n } else { num_bigint::BigUint::from(k) } % &ord;
+                                if let Some(inv) = refmodel::pf::inv_euclid(&m, &ord) {
+                                    let pre = rgp.mul(&inv, &s);
+                                    // (on the Edwards curves S may have a torsion component: keep the pre-image only when it is one)
+                                    if rgp.mul(&m, &pre) == s && rgp.decode(&rgp.encode(&pre)).is_some() { p = enc(&pre); }
+                                }
+                            }
+                            2 if rel == 0 => { let d = rgp.sub(&s, &ref_pv(g, &p)); if rgp.decode(&rgp.encode(&d)).is_some() { q = enc(&d); } }
+                            3 if rel == 0 => { let d = rgp.sub(&ref_pv(g, &p), &s); if rgp.decode(&rgp.encode(&d)).is_some() { q = enc(&d); } }
+                            _ => {}
+                        }
+                    }
+                }
+                Case { g: g as u8, p, q, r, rel, n, k, form }
+            })
             .boxed()
     }
     fn check(&self, c: &Case) -> Outcome {
